@@ -56,6 +56,7 @@ def build_entries(repo: Repo) -> List[Tuple[FunctionInfo, tuple]]:
     E.append((cph.lookup("Cylinder"), (ccph, PT, NUM, VEC, NUM)))
     E.append((cph.lookup("Cone"), (ccph, PT, NUM, VEC, NUM)))
     E.append((repo.fn("get_circle_point_list"), (PT, VEC, NUM, NUM)))
+    E.append((repo.fn("get_triangle_area"), (PT, PT, PT)))  # a public function of geometry/polygon.py (callers may inline it)
     for cm in ("origin",):
         E.append((repo.cls("Point").lookup(cm), (S(("cls", "Point")),)))
     for cm in ("x_axis", "y_axis", "z_axis"):
@@ -100,6 +101,13 @@ def build_entries(repo: Repo) -> List[Tuple[FunctionInfo, tuple]]:
                     E.append((m, (me, NUM, PT if cname == "Segment" else NUM)))
                 elif mname in ("_init_pn", "_init_gf"):
                     pass  # reached through __init__
+                elif mname.startswith("_") and not mname.startswith("__"):
+                    pass  # a private helper with parameters is analysed with the argument types of its callers only
+                elif np_ == 1:
+                    # a public method this table does not know: one context per plausible operand type (its own type
+                    # checks decide which of them are accepted)
+                    for o in (NUM, PT, VEC, S("Line"), S("Plane")):
+                        E.append((m, (me, o)))
                 else:
                     E.append((m, (me,) + tuple(NUM for _ in range(np_))))
     # --- Vector methods
